@@ -47,6 +47,8 @@ def cases(tier, rng):
     # that needs no further byte); some peers disconnect, cleanly or in the middle of a message
     for i in range(300 if tier == "quick" else 5000):
         out.append(stream_case(rng, f"streams#{i}"))
+    # a peer connects again under an identity that is still registered while a recv is parked on the old stream
+    out += worldgen.reconnect_parked_cases()
     return out
 
 
@@ -151,6 +153,8 @@ def oracle(case, lines):
     if case.engine != "fq":
         if case.expect and case.expect[0] == "streams":
             return stream_oracle(case, lines)
+        if case.expect and case.expect[0] == "reconnect-parked":
+            return worldgen.reconnect_parked_oracle(case, lines)
         return None  # socket-level random schedules: exact prediction by the World model is the check
     a = fqgen.analyse(case, lines)
     for k, d in a["delivered"].items():
